@@ -381,7 +381,7 @@ void body(V::Ctx &ctx)
 
     // (b) every string up to length N over a character alphabet as the byte-range-set
     const std::string alpha = "019-, a+";
-    const int N = ctx.quick() ? 5 : 8;
+    const int N = ctx.quick() ? 6 : 8;
     for (int len = 0; len <= N; ++len) {
         idx.assign(len, 0);
         for (;;) {
